@@ -23,6 +23,9 @@ pub enum ROp {
     /// read every public view (signature, hash views, low sketch, overflow count, cardinality estimate);
     /// in the compared part the restarted sketcher and its fresh twin must agree at each such read
     Observe,
+    /// n restarts in a row, every 16th one followed by an item that is then thrown away by the next restart
+    /// (generation counters of every width must wrap without bringing old state back)
+    RestartMany(u32, u64),
 }
 
 /// what one `Observe` saw
@@ -88,6 +91,17 @@ fn apply(node: &mut Box<dyn UNode>, ops: &[ROp], ctx: &mut Ctx, is_dens: bool, p
             ROp::Restart => {
                 ctx.ev("pre-restart", 0);
                 node.restart();
+                streamed_since_restart = 0;
+            }
+            ROp::RestartMany(n, item) => {
+                ctx.ev("pre-restart-many", *n as u64);
+                ctx.count("fault:many-restarts-in-a-row");
+                for k in 0..*n {
+                    node.restart();
+                    if k % 16 == 7 && k + 1 < *n {
+                        node.deliver(*item);
+                    }
+                }
                 streamed_since_restart = 0;
             }
             ROp::Observe => {
@@ -262,6 +276,13 @@ impl Scenario for Restart {
                 if rng.chance(0.2) {
                     let k = rng.usize_below(ops.len() + 1);
                     ops.insert(k, ROp::Restart);
+                }
+                if rng.chance(0.03) {
+                    // counts around the wrap of 8- and 16-bit generation stamps, bounded by the cost of a restart (O(m))
+                    let n = *rng.pick(&[254u32, 255, 256, 257, 510, 511, 512, 65_535, 65_536, 65_537]);
+                    let n = if (n as usize) * spec.m > 6_000_000 { *rng.pick(&[254u32, 255, 256, 257, 511]) } else { n };
+                    let k = rng.usize_below(ops.len() + 1);
+                    ops.insert(k, ROp::RestartMany(n, *rng.pick(&pool)));
                 }
                 if is_dens && rng.chance(0.3) {
                     // late items after finishing, double finish
